@@ -126,12 +126,17 @@ type sessionCred struct {
 	Id   string
 	Auth string
 	Num  uint64
+	Addr string // remote address ("host:port") the session's requests come from
 }
 
 func (n *inode) public(method, path string, body []byte, hdr map[string]string) *httptest.ResponseRecorder {
 	req := httptest.NewRequest(method, "/robustirc/v1/"+path, bytes.NewReader(body))
 	req.RemoteAddr = "192.0.2.1:4711"
 	for k, v := range hdr {
+		if k == "RemoteAddr" {
+			req.RemoteAddr = v
+			continue
+		}
 		req.Header.Set(k, v)
 	}
 	rec := httptest.NewRecorder()
@@ -162,7 +167,11 @@ func (n *inode) createSession() (sessionCred, int) {
 }
 
 func (n *inode) postRaw(s sessionCred, body []byte) *httptest.ResponseRecorder {
-	return n.public("POST", s.Id+"/message", body, map[string]string{"X-Session-Auth": s.Auth})
+	hdr := map[string]string{"X-Session-Auth": s.Auth}
+	if s.Addr != "" {
+		hdr["RemoteAddr"] = s.Addr
+	}
+	return n.public("POST", s.Id+"/message", body, hdr)
 }
 
 func (n *inode) post(s sessionCred, data string, cmid uint64) int {
